@@ -222,7 +222,21 @@ pub fn check_files(case: &FileCase) -> CaseResult {
                     if open[s].is_some() {
                         continue;
                     }
-                    match if *append { v.append(p(*i)) } else { v.write(p(*i)) } {
+                    // on Memfs every other slot opens through a cwd-relative spelling and the cwd moves on right after:
+                    // a handle writes back to the file it was opened on, wherever the cwd is by then
+                    let opened = if !case.stdfs && slot % 2 == 1 {
+                        let full = p(*i);
+                        let (d, name) = full.rsplit_once('/').unwrap();
+                        let _ = v.set_cwd(d);
+                        let r = if *append { v.append(name) } else { v.write(name) };
+                        let _ = v.set_cwd("/");
+                        r
+                    } else if *append {
+                        v.append(p(*i))
+                    } else {
+                        v.write(p(*i))
+                    };
+                    match opened {
                         Ok(h) => {
                             let base = if *append { model.get(&k).cloned().unwrap_or_default() } else { vec![] };
                             // the file exists from now on; a write handle's truncation may become visible only at flush
